@@ -5,9 +5,9 @@ V = os.path.dirname(os.path.dirname(os.path.abspath(__file__)))
 props = [json.loads(l)["id"] for l in open(V + "/properties.jsonl")]
 
 CHECKS = {
- "C18": dict(cat="exploration", tech="explicit-state history exploration of the real pools (every block size x every request count)",
-   text="Complete enumeration, on the real token and position pools, of every history Get^k for every block size 1..128,255..257,1023..1025 (quick) / 1..1100,2047..2049,4096 (thorough) and every k <= 3*size+2; after every Get all objects handed out so far are checked for nil, identity, storage overlap and read-back against a reference slice. Complete for the sizes listed; sizes beyond are not explored.",
-   note="Trusted: Go reflection/unsafe address arithmetic; the overlay only turns the DefaultBlockSize constants into variables.", ref="§C18"),
+ "C18": dict(cat="exploration", tech="explicit-state history exploration of the real pools (every block size x every request count; long histories; two pools alive at once: every interleaving word) + free-running -race pass",
+   text="Complete enumeration, on the real token and position pools, of every history Get^k for every block size 1..128,255..257,1023..1025 (quick) / 1..1100,2047..2049,4096 (thorough) and every k <= 3*size+2; after every Get all objects handed out so far are checked (non-nil, never seen before, no storage overlap, unique value written and every earlier value read back), then writes in reverse order. Plus long histories of 150 000 (thorough 1 500 000) requests over small and very large blocks (1..64, 1024, 20000, 70000; duplicate test on every request, full read-back at block boundaries), histories with garbage collections in the middle, every interleaving word of length 10 (thorough 14) over two pools alive at once for all size pairs in 1..4 (objects distinct across pools), and a free-running -race pass over goroutines that own their pools (sampling; complements, never decides). Block sizes and request counts beyond those listed are not explored.",
+   note="Trusted: Go reflection/unsafe address arithmetic; the pool files are compiled exactly as they are in the tree (no overlay touches them).", ref="§C18"),
 }
 CHECKS.update({
  "C02": dict(cat="exploration", tech="exhaustive exploration of the LALR automaton's rule/2-path/3-path sentences x trivia and lexeme deviations on the real scanner+parser+printer",
@@ -91,7 +91,7 @@ m = {
  "setup_cmd": "./setup.sh",
  "hooks": {
    "guard": "go build -overlay (generated by tools/prep.py from the current tree; no hook commits in /repo)",
-   "enable": "check.sh regenerates .build/overlay.json from /repo's working tree and builds the checker with `go build -overlay`: verifhook.P() as first statement of (*Parser).Lex in internal/php5 and internal/php7, verifhook.T() after the `_again:` label of internal/scanner/scanner.go, DefaultBlockSize const->var in both pools, virtual package internal/verifhook",
+   "enable": "check.sh regenerates .build/overlay.json from /repo's working tree and builds the checker with `go build -overlay`: verifhook.P() as first statement of (*Parser).Lex in internal/php5 and internal/php7, verifhook.T() after the `_again:` label of internal/scanner/scanner.go, the block-size argument of the NewPool call sites in internal/scanner/lexer.go and internal/position/position.go wrapped in verifhook.BlockSize(), virtual package internal/verifhook",
    "baseline_off_cmd": "cd /repo && go test -mod=mod -vet=off -count=1 -timeout 25m ./...",
    "source_commits": [],
    "add_only": True,
